@@ -4,12 +4,12 @@ cd ${SWEEP_DIR:-/verif}
 for d in seeded/*/; do
   id=$(basename $d); prop=${id%%-*}
   WT=/tmp/wt-sweep-$$
-  git -C /repo worktree add --detach $WT HEAD -q
+  git -C ${SWEEP_REPO:-/repo} worktree add --detach $WT HEAD -q
   if git -C $WT apply "$(pwd)/$d/patch.diff" 2>/dev/null; then
     res=$(VERIF_REPO=$WT ./check $prop --seed ${SWEEP_SEED:-1} 2>&1 | grep "^VIOLATION\|^OK" | head -1 | cut -c1-90)
     echo "$id: $res"
   else
     echo "$id: patch does not apply to the current HEAD (the tree has moved at that place)"
   fi
-  git -C /repo worktree remove --force $WT
+  git -C ${SWEEP_REPO:-/repo} worktree remove --force $WT
 done
